@@ -48,6 +48,8 @@ type Report struct {
 	realMs    atomic.Int64
 	deadlineS int
 	expired   atomic.Bool // set by a real-time goroutine (works inside a synctest bubble, where time.Now is virtual)
+	holding   bool        // RunConfirmed: violations are buffered in held
+	held      []Violation
 }
 
 func Getenv(k, def string) string {
@@ -190,8 +192,61 @@ func (r *Report) Sample(max int, s any) {
 }
 
 // Violation records a violation. At most 8 per (kind) are kept with full detail, all are counted.
+// RunConfirmed executes run, which reports violations on r. If it reported any, run is executed a second time from
+// scratch and only the violations (kind, key) reported by BOTH executions are kept (DESIGN 2.1: a failure that does not
+// repeat is a harness or environment effect - a layout that depended on timing on a loaded machine - never a verdict).
+// The others are counted (violations_not_reproduced) and the report is marked non-exhaustive.
+func (r *Report) RunConfirmed(run func()) {
+	r.mu.Lock()
+	if r.holding {
+		r.mu.Unlock()
+		run()
+		return
+	}
+	r.holding, r.held = true, nil
+	r.mu.Unlock()
+	run()
+	r.mu.Lock()
+	first := r.held
+	r.held = nil
+	r.mu.Unlock()
+	var second []Violation
+	if len(first) > 0 {
+		run()
+		r.mu.Lock()
+		second = r.held
+		r.mu.Unlock()
+	}
+	r.mu.Lock()
+	r.holding, r.held = false, nil
+	r.mu.Unlock()
+	again := map[string]bool{}
+	for _, v := range second {
+		again[v.Kind+"\x00"+v.Key] = true
+	}
+	lost := 0
+	for _, v := range first {
+		if again[v.Kind+"\x00"+v.Key] {
+			r.Violation(v.Kind, v.Key, v.Detail, v.Replay)
+		} else {
+			lost++
+		}
+	}
+	if lost > 0 {
+		r.Count("violations_not_reproduced", int64(lost))
+		r.Cut(fmt.Sprintf("%d violation(s) of one execution did not repeat when the case was executed again from scratch; not reported", lost))
+	}
+}
+
 func (r *Report) Violation(kind, key, detail string, replay any) {
 	r.mu.Lock()
+	if r.holding {
+		if len(r.held) < 4096 {
+			r.held = append(r.held, Violation{Kind: kind, Key: key, Detail: detail, Replay: replay})
+		}
+		r.mu.Unlock()
+		return
+	}
 	r.NViolations++
 	r.vioKeys[kind]++
 	if r.vioKeys[kind] <= 8 {
